@@ -1,6 +1,7 @@
 CONSTANTS
   Dev = {"D_queue_full_drop"}
   QCapT = 10
+  LimitT = 3
 SPECIFICATION TSpec
 INVARIANT ConnInvariants
 INVARIANT LostCounter
